@@ -501,6 +501,20 @@ fn op_asteq(req: &J) -> J {
     json!({"equal": items_a == items_b, "errors_a": errs_a.len(), "errors_b": errs_b.len()})
 }
 
+/// Run the formatter. Reports the output, the text after every
+/// phase and the edit lists the phases computed.
+fn op_format(req: &J) -> J {
+    let src = req["src"].as_str().unwrap_or("");
+    crate::format::VERIF_TRACE.with(|t| t.borrow_mut().clear());
+    let out = crate::format::format(src, &PathBuf::from("/verif.gdn"));
+    let trace = crate::format::VERIF_TRACE.with(|t| std::mem::take(&mut *t.borrow_mut()));
+    let phases: Vec<J> = trace
+        .into_iter()
+        .map(|(name, edits, text)| json!({"phase": name, "edits": edits, "text": text}))
+        .collect();
+    json!({"output": out, "phases": phases})
+}
+
 fn type_of_json(j: &J) -> Type {
     if let Some(s) = j.as_str() {
         if s == "Any" {
@@ -900,6 +914,7 @@ fn dispatch(req: &J) -> J {
         "lex" => op_lex(req),
         "sexp" => op_sexp(req),
         "asteq" => op_asteq(req),
+        "format" => op_format(req),
         "subtype" => op_subtype(req),
         "unify" => op_unify(req),
         "unify_all" => op_unify_all(req),
